@@ -2,6 +2,7 @@ package main
 
 // suite "tlv" (C01 kernel): the on-disk value codecs of a log column, real writer and real reader.
 // Op lines (see lean/Oracle/C01.lean for the answer formats):
+//   tlv mix <v,v,...> <seeks>
 //   tlv col <limit> <v,v,...> <seeks>      tlv num <kind> <hexbits>      tlv dec <hex>
 //   tlv raw <constLen> <hex> <seeks>       tlv dict <recCount> <whex:r.r,...> <seeks>
 //   tlv rdict <recCount> <hex> <seeks>     tlv ts <ts,...>               tlv rts <numRecs> <hex>
@@ -390,6 +391,8 @@ func execTlv(line string) Result {
 	switch f[1] {
 	case "col":
 		return execTlvCol(f[2:])
+	case "mix":
+		return execTlvMix(f[2:])
 	case "num":
 		return execTlvNum(f[2:])
 	case "dec":
@@ -552,6 +555,147 @@ func execTlvCol(a []string) Result {
 		res.Tags = append(res.Tags, "col-dict-with-string>MAX_RECORD_SIZE(no-demand)")
 	case isDict:
 		check(dctRd, "seek-dict")
+	}
+	return res
+}
+
+func tlvMixByteOK(b byte) bool {
+	return (b >= '0' && b <= '9') || b == '-' || (b >= 'a' && b <= 'z')
+}
+
+// value class of op mix: int64, null/absent, strings of at most 40 bytes over [a-z0-9-] that are empty, or start
+// with a letter other than i/n, or consist of [0-9-] only and are not -?[0-9]{19,}
+func tlvMixOK(v tlvVal) bool {
+	switch v.v.Kind {
+	case '-', 'z', 'i':
+		return true
+	case 's':
+		s := v.v.Str
+		if len(s) > 40 {
+			return false
+		}
+		for _, b := range s {
+			if !tlvMixByteOK(b) {
+				return false
+			}
+		}
+		if len(s) == 0 {
+			return true
+		}
+		if s[0] >= 'a' && s[0] <= 'z' {
+			return s[0] != 'i' && s[0] != 'n'
+		}
+		ds := s
+		if ds[0] == '-' {
+			ds = ds[1:]
+		}
+		allDigits := true
+		for _, b := range s {
+			if !((b >= '0' && b <= '9') || b == '-') {
+				return false
+			}
+		}
+		for _, b := range ds {
+			allDigits = allDigits && b >= '0' && b <= '9'
+		}
+		return !(len(ds) > 18 && allDigits)
+	}
+	return false
+}
+
+// one column through fill → the flush-time prefix of AppendWipToSegfile (marking of the advertised record
+// length + consolidateColumnTypes; textual slice, see cmd/overlaygen/c01.go) → zstd block → reader with the
+// advertised length
+func execTlvMix(a []string) Result {
+	if len(a) != 2 {
+		return Result{Out: "bad-op"}
+	}
+	var vals []tlvVal
+	for _, t := range strings.Split(a[0], ",") {
+		v, ok := tlvParseVal(t)
+		if !ok {
+			return Result{Out: "bad-op"}
+		}
+		vals = append(vals, v)
+	}
+	seeks, ok := tlvParseSeeks(a[1])
+	if !ok || len(vals) > 60000 {
+		return Result{Out: "bad-op"}
+	}
+	for _, v := range vals {
+		if !tlvMixOK(v) {
+			return Result{Out: "bad-op"}
+		}
+	}
+	vv := make([]writer.VerifVal, len(vals))
+	tss := make([]uint64, len(vals))
+	for i, v := range vals {
+		vv[i] = v.v
+		tss[i] = 1000 + uint64(i)
+	}
+	ss, err := writer.VerifFillColumn(filepath.Join(tlvDir, "seg"), vv, tss, config.GetTimeStampKey())
+	if err != nil {
+		return Result{Out: "fill-error:" + err.Error()}
+	}
+	if col, ok := ss.VerifColBytes("c"); !ok || len(col) == 0 {
+		return Result{Out: "bad-op"}
+	}
+	mixed := ss.VerifHasBloomAndRange("c")
+	if err := ss.VerifMarkAndConsolidate(); err != nil {
+		return Result{Out: "consolidate-error:" + err.Error()}
+	}
+	col, _ := ss.VerifColBytes("c")
+	size, _ := ss.VerifSeenSize("c")
+	fn := tlvFile()
+	defer os.Remove(fn)
+	bl, bo, err := ss.VerifWriteBlock("c", fn, sutils.ZSTD_COMLUNAR_BLOCK, false)
+	if err != nil {
+		return Result{Out: "write-error:" + err.Error()}
+	}
+	rd := tlvReadBack(fn, bl, bo, ss.VerifRecCount(), size, seeks)
+	m := 0
+	if mixed {
+		m = 1
+	}
+	res := Result{Out: fmt.Sprintf("mixed=%d size=%d col=%s raw=%s", m, size, hex.EncodeToString(col), rd.res),
+		Nontrivial: len(vals) >= 2 && len(seeks) >= 1, Tags: []string{"mix", fmt.Sprintf("mix-mixed=%v", mixed)}}
+	if size != sutils.INCONSISTENT_CVAL_SIZE {
+		res.Tags = append(res.Tags, "mix-consistent-len")
+	}
+	// property on the real code: record i reads back as value i, where a number may come back as its decimal
+	// text (granted by the statement) and a decimal text as the number (known finding of the e2e suite, not
+	// demanded here)
+	if !rd.ok {
+		res.Fails = append(res.Fails, PropFail{Sig: "tlv/mix/block-unreadable", Msg: "block written by the real writer cannot be loaded: " + rd.res})
+		return res
+	}
+	for j, s := range seeks {
+		if j >= len(rd.recs) {
+			res.Fails = append(res.Fails, PropFail{Sig: "tlv/mix/panic", Msg: fmt.Sprintf("seek #%d (record %d) was not reached: %s", j, s, trunc(rd.res, 200))})
+			break
+		}
+		if int(s) >= len(vals) {
+			continue
+		}
+		if rd.recs[j] == nil {
+			res.Fails = append(res.Fails, PropFail{Sig: "tlv/mix/record-lost", Msg: fmt.Sprintf("record %d not returned (seek #%d of %v, advertised record length %d): %s", s, j, seeks, size, trunc(rd.res, 200))})
+			continue
+		}
+		got, _, o := tlvDecode(rd.recs[j])
+		want := vals[s].want
+		okv := got == want
+		if !okv && strings.HasPrefix(want, "i:") && strings.HasPrefix(got, "s:") { // number as decimal text
+			okv = got == "s:"+hex.EncodeToString([]byte(want[2:]))
+		}
+		if !okv && strings.HasPrefix(want, "s:") && strings.HasPrefix(got, "i:") { // decimal text as number
+			b, _ := hex.DecodeString(want[2:])
+			if i, err := strconv.ParseInt(string(b), 10, 64); err == nil {
+				okv = got == "i:"+strconv.FormatInt(i, 10)
+			}
+		}
+		if !okv {
+			res.Fails = append(res.Fails, PropFail{Sig: "tlv/mix/wrong-value", Msg: fmt.Sprintf("record %d (seek #%d of %v, advertised record length %d) decodes to %s, sent %s", s, j, seeks, size, trunc(o, 80), want)})
+		}
 	}
 	return res
 }
@@ -1007,6 +1151,61 @@ func tlvGenVal(r *rand.Rand, profile int) string {
 	}
 }
 
+func tlvGenMix(r *rand.Rand) string {
+	n := 1 + r.Intn(20)
+	vals := make([]string, n)
+	shape := r.Intn(5)
+	for i := range vals {
+		switch shape {
+		case 0: // 9-byte records of both types: 6-char text and int64 (the consistent length survives ingest)
+			if r.Intn(2) == 0 {
+				vals[i] = tlvGenVal(r, 1)
+			} else {
+				vals[i] = fmt.Sprintf("i%d", r.Intn(2000)-1000)
+			}
+		case 1: // numbers and numeric text (converted to numbers)
+			if r.Intn(2) == 0 {
+				vals[i] = "s" + hex.EncodeToString([]byte(strconv.Itoa(r.Intn(2000000)-1000000)))
+			} else {
+				vals[i] = fmt.Sprintf("i%d", tlvI64Edges[r.Intn(len(tlvI64Edges))])
+			}
+		case 2: // 6-digit numeric text and numbers: 9 bytes before and after the conversion
+			if r.Intn(2) == 0 {
+				vals[i] = "s" + hex.EncodeToString([]byte(strconv.Itoa(100000+r.Intn(900000))))
+			} else {
+				vals[i] = fmt.Sprintf("i%d", r.Intn(100))
+			}
+		case 3: // one type only (no consolidation)
+			vals[i] = tlvGenVal(r, 1)
+		default:
+			switch r.Intn(4) {
+			case 0:
+				vals[i] = fmt.Sprintf("i%d", tlvI64Edges[r.Intn(len(tlvI64Edges))])
+			case 1:
+				vals[i] = "s" + hex.EncodeToString([]byte([]string{"", "-", "1-2", "x1", "007", "-0", "123456789012345678", "-999999999999999999", "ghx", "zzzzzz", "e5", "a-1", "--1", "0-"}[r.Intn(14)]))
+			case 2:
+				vals[i] = tlvGenVal(r, 1)
+			default:
+				vals[i] = []string{"z", "-"}[r.Intn(2)]
+			}
+		}
+	}
+	if r.Intn(4) == 0 {
+		k := r.Intn(n)
+		for i := 0; i < k; i++ {
+			vals[i] = "-"
+		}
+	}
+	allAbsent := true
+	for _, v := range vals {
+		allAbsent = allAbsent && v == "-"
+	}
+	if allAbsent {
+		vals[n-1] = "i1"
+	}
+	return fmt.Sprintf("tlv mix %s %s", strings.Join(vals, ","), tlvGenSeeks(r, n))
+}
+
 func tlvGenSeeks(r *rand.Rand, n int) string {
 	k := 1 + r.Intn(12)
 	var p []string
@@ -1266,6 +1465,7 @@ func genTlv(r *rand.Rand, n int, tier string) []string {
 		"tlv col 501 S65532:1,i1 1;0;1", "tlv col 501 S65533:2,i1 1;0;1", "tlv col 501 S65535:3,i1 0;1", "tlv col 501 S65536:4,i1 0;1;0", "tlv col 501 S65537:5,i1 1;0",
 		"tlv col 501 S63000:6 0", "tlv col 501 S63001:7 0",
 		"tlv col 501 s616263646566,i12,s6768696a6b6c 0;1;2;2;0", // all records 9 bytes, mixed types
+		"tlv mix s616263646566,i12,s6768696a6b6c,i7,s6d6e6f707172 4;2;0;1;3", "tlv mix s313233343536,i12,s363534333231 2;0;1", "tlv mix i5,i6 1;0", "tlv mix -,s6768,i5 2;1;0",
 		"tlv col 3 i1,i2,i3,i1 0;1;2;3", "tlv col 4 i1,i2,i3,i1 3;2;1;0", "tlv col 1 i1,i1 0;1",
 		"tlv col 501 -,-,s6162 0;1;2;3", "tlv col 501 u18446744073709551615,u0 1;0",
 		"tlv dec -", "tlv dec 02", "tlv dec 0200", "tlv dec 020000", "tlv dec 02fdff", "tlv dec 02feff", "tlv dec 02ffff", "tlv dec 13", "tlv dec 0102", "tlv dec 12000061", "tlv dec 14", "tlv dec 00",
@@ -1295,8 +1495,10 @@ func genTlv(r *rand.Rand, n int, tier string) []string {
 	}
 	for len(out) < n {
 		switch x := r.Intn(100); {
-		case x < 38:
+		case x < 30:
 			out = append(out, tlvGenCol(r, tier))
+		case x < 38:
+			out = append(out, tlvGenMix(r))
 		case x < 45:
 			ks := []string{"u8", "u16", "u32", "u64", "i8", "i16", "i32", "i64", "f64"}
 			k := ks[r.Intn(len(ks))]
